@@ -2,12 +2,16 @@
 //! (Also the base of c12.rs, which adds its own generator.)
 //!
 //! case: {"mode": "beh"|"snap"|"rx"|"cp", "ic": bool, "unique": bool, "ops": [op..], "hay": [string..]}
-//!   op  = ["i", pat, id, v] | ["r", id] | ["k", [id..]] | ["c", limit, level|null]
+//!   op  = ["i", pat, id, v] | ["r", id] | ["k", [id..]] | ["m", [id..], delta] | ["c", limit, level|null]
+//!         ("m": retain with a closure that adds delta to the value through its `&mut V` and keeps the listed ids)
 //!   pat = [["l", text] | ["g", body] ..]   literal text goes through regex::escape, a group is "(" body ")"
 //!   unique=true: UniqueRegexTreeMap (insert under the rendered pattern; "r"/"k" carry rendered patterns)
 //! obs (one entry per op):
 //!   beh : {len, empty, find[per haystack, sorted], get[per pattern, sorted], iter(sorted), rem}
 //!   snap: {snap: verif_snapshot(), ret: returned budget of cache, clen: number of compiled regexes, inv: true}
+//!   real: like beh plus {inv: true, contents: true}; the case carries "snaps" = verif_snapshot() after every op,
+//!         produced by `gen` running the real code; the driver evaluates the invariant and the model's find/get/len on
+//!         that very state.  `run` re-checks that the embedded snapshots are the current ones (else the case is stale: invalid).
 //!   rx  : per distinct pattern {p, ok, m[per haystack], pre[[k, ok, m[..]] per scanner boundary k]} (regex crate)
 //!   cp  : [common_prefix_char_size(a,b), get_prefix_with_char_size(a,n), common_prefix(a,b)]
 //! Oracle evaluated on the implementation alone (beh, in-domain cases): find == linear scan of the live
@@ -317,7 +321,11 @@ pub fn history(pool: &[Pat], unique: bool, rng: &mut Prng, nops: usize, cache_w:
             ops.push(json!(["r", id]));
         } else if r < cache_w + 5 && !used.is_empty() {
             let keep: Vec<String> = all_ids.iter().filter(|_| rng.chance(3, 5)).cloned().collect();
-            ops.push(json!(["k", keep]));
+            if rng.chance(1, 3) {
+                ops.push(json!(["m", keep, rng.range(1, 3) * 100]));
+            } else {
+                ops.push(json!(["k", keep]));
+            }
         } else {
             let pi = rng.below(pool.len());
             // an id normally belongs to one pattern; rarely break that on purpose (out of the property's domain)
@@ -408,9 +416,38 @@ pub fn exh_haystacks() -> Vec<String> {
     ["/ax", "/ax/b", "/ax/c", "/ay/b", "/a.b", "/a-b", "/日42", "/日7日", "/axa", "/", "/a", "/AX/B", ""].iter().map(|s| s.to_string()).collect()
 }
 
-fn emit_modes(emit: &mut dyn FnMut(Value), ic: bool, unique: bool, ops: &[Value], hay: &[String], exh: bool, modes: &[&str]) {
+/// Run the op list on the REAL tree and return `verif_snapshot()` after every op (used by `gen` for mode real).
+pub fn real_snapshots(ic: bool, unique: bool, ops: &[Value]) -> Option<Vec<Value>> {
+    let case = json!({"ops": ops});
+    let (parsed, _) = parse_ops(&case, unique)?;
+    let mut tree = Tree::new(unique, ic);
+    let mut snaps = Vec::new();
+    for op in &parsed {
+        match op {
+            Op::Ins(p, id, v) => tree.insert(p, id, *v),
+            Op::Rem(id) => {
+                tree.remove(id);
+            }
+            Op::Keep(keep) => tree.retain(keep),
+            Op::Mut(keep, delta) => tree.retain_mut(keep, *delta),
+            Op::Cache(limit, level) => {
+                tree.cache(*limit, *level);
+            }
+        }
+        snaps.push(tree.snapshot());
+    }
+    Some(snaps)
+}
+
+pub fn emit_modes(emit: &mut dyn FnMut(Value), ic: bool, unique: bool, ops: &[Value], hay: &[String], exh: bool, modes: &[&str]) {
     for m in modes {
         let mut c = json!({"mode": m, "ic": ic, "unique": unique, "ops": ops, "hay": hay});
+        if *m == "real" {
+            match real_snapshots(ic, unique, ops) {
+                Some(s) => c["snaps"] = Value::Array(s),
+                None => continue,
+            }
+        }
         if exh {
             c["exh"] = json!(true);
         }
@@ -438,7 +475,7 @@ fn gen_exhaustive_pool(emit: &mut dyn FnMut(Value), max_k: usize, pool: &[Pat], 
                         }
                     }
                     // the behaviour of the same history on a case-insensitive tree differs only in the matcher
-                    emit_modes(emit, false, false, &ops, hay, true, &["beh", "snap"]);
+                    emit_modes(emit, false, false, &ops, hay, true, &["beh", "snap", "real"]);
                 }
             }
         }
@@ -478,9 +515,9 @@ fn gen(args: &Args, emit: &mut dyn FnMut(Value)) {
         let ops = history(&pool, unique, &mut rng, nops, 3);
         let hay = haystacks(&pool, &mut rng, 8);
         if i % 3 == 0 {
-            emit_modes(emit, ic, unique, &ops, &hay, false, &["beh", "snap", "rx"]);
+            emit_modes(emit, ic, unique, &ops, &hay, false, &["beh", "snap", "real", "rx"]);
         } else {
-            emit_modes(emit, ic, unique, &ops, &hay, false, &["beh", "snap"]);
+            emit_modes(emit, ic, unique, &ops, &hay, false, &["beh", "snap", "real"]);
         }
     }
 }
@@ -516,6 +553,16 @@ impl Tree {
     }
     fn retain(&mut self, keep: &BTreeSet<String>) {
         let f = |id: &str, _v: &mut u64| keep.contains(id);
+        match self {
+            Tree::Multi(t) => t.retain(&f),
+            Tree::Unique(t) => t.retain(&f),
+        }
+    }
+    fn retain_mut(&mut self, keep: &BTreeSet<String>, delta: u64) {
+        let f = |id: &str, v: &mut u64| {
+            *v += delta;
+            keep.contains(id)
+        };
         match self {
             Tree::Multi(t) => t.retain(&f),
             Tree::Unique(t) => t.retain(&f),
@@ -575,6 +622,7 @@ pub enum Op {
     Ins(String, String, u64),
     Rem(String),
     Keep(BTreeSet<String>),
+    Mut(BTreeSet<String>, u64),
     Cache(u64, Option<u64>),
 }
 
@@ -601,6 +649,13 @@ pub fn parse_ops(case: &Value, unique: bool) -> Option<(Vec<Op>, Vec<Pat>)> {
                     s.insert(x.as_str()?.to_string());
                 }
                 ops.push(Op::Keep(s));
+            }
+            "m" if a.len() == 3 => {
+                let mut s = BTreeSet::new();
+                for x in a[1].as_array()? {
+                    s.insert(x.as_str()?.to_string());
+                }
+                ops.push(Op::Mut(s, a[2].as_u64()?));
             }
             "c" if a.len() == 3 => {
                 let level = if a[2].is_null() { None } else { Some(a[2].as_u64()?) };
@@ -830,10 +885,26 @@ pub fn run(case: &Value) -> Obs {
                 live.retain(|(_, id, _)| keep.contains(id));
                 tags.push("op:retain".to_string());
             }
+            Op::Mut(keep, delta) => {
+                tree.retain_mut(keep, *delta);
+                live.retain(|(_, id, _)| keep.contains(id));
+                for e in live.iter_mut() {
+                    e.2 += *delta;
+                }
+                tags.push("op:retain-mut".to_string());
+            }
             Op::Cache(limit, level) => {
                 ret = json!(tree.cache(*limit, *level));
                 tags.push("op:cache".to_string());
             }
+        }
+        if mode == "real" {
+            let fresh = tree.snapshot();
+            let given = case.get("snaps").and_then(|s| s.as_array()).and_then(|a| a.get(steps.len()));
+            if given != Some(&fresh) {
+                return Obs::invalid("stale snapshot: the embedded snapshot is not the state the current code reaches");
+            }
+            max_depth = max_depth.max(depth_of(&fresh));
         }
         if mode == "snap" {
             let snap = tree.snapshot();
@@ -879,7 +950,12 @@ pub fn run(case: &Value) -> Obs {
                 }
             }
             let gets: Vec<Vec<u64>> = rendered.iter().map(|p| tree.get(p)).collect();
-            steps.push(json!({"len": tree.len(), "empty": tree.is_empty(), "find": finds, "get": gets, "iter": tree.iter(), "rem": rem}));
+            let mut step = json!({"len": tree.len(), "empty": tree.is_empty(), "find": finds, "get": gets, "iter": tree.iter(), "rem": rem});
+            if mode == "real" {
+                step["inv"] = json!(true);
+                step["contents"] = json!(true);
+            }
+            steps.push(step);
         }
     }
     if mode == "snap" {
@@ -907,7 +983,7 @@ pub fn run(case: &Value) -> Obs {
     }
     let mut o = Obs::new(Value::Array(steps));
     o.tags = tags;
-    o = o.trivial(pats.len() < 2 || (mode == "beh" && !any_hit));
+    o = o.trivial(pats.len() < 2 || (mode != "snap" && !any_hit));
     if let Some(why) = oracle_fail {
         let sig = if dom == Dom::ClassParen { "class-paren" } else if mode == "snap" { "cached-len" } else { "scan-mismatch" };
         o = o.fail(why, sig);
